@@ -16,6 +16,7 @@
 //       srcchunk=<n> dstcap=<n> misalign=<n> lw=<n> prev=<hex|-> src=<hex>
 //   idct <128 bytes hex: 64 u16le coefficients> <64 bytes hex: quants>
 //   jpegblocks <hex jpeg>
+//   pngfilter <f> <d> <curr hex> <prev hex|->
 //   objinit (see main.go: generated separately per probe package, not here)
 //
 // Object memory: malloc'ed, pre-filled with the `prefill` pattern BEFORE initialize.
@@ -788,6 +789,73 @@ static void cmd_jpegblocks(char** toks, int n) {
   free(src);
 }
 
+// pngfilter <f> <d> <curr hex> <prev hex|->: one row through the portable fallback and (when
+// compiled in and supported by the CPU) through the SSE4.2 twin of the same filter.
+static void cmd_pngfilter(char** toks, int n) {
+  if (n < 5) {
+    puts("bad-args");
+    return;
+  }
+  int f = atoi(toks[1]);
+  int d = atoi(toks[2]);
+  size_t cl = 0, pl = 0;
+  uint8_t* cb = unhex(toks[3], &cl);
+  uint8_t* pb = unhex(toks[4], &pl);
+  wuffs_png__decoder* dec = (wuffs_png__decoder*)malloc(sizeof(wuffs_png__decoder));
+  memset(dec, 0xA5, sizeof(*dec));
+  if (wuffs_png__decoder__initialize(dec, sizeof(*dec), WUFFS_VERSION,
+                                     WUFFS_INITIALIZE__LEAVE_INTERNAL_BUFFERS_UNINITIALIZED).repr) {
+    puts("init-error");
+    return;
+  }
+  uint8_t* c1 = (uint8_t*)malloc(cl + 1);
+  uint8_t* c2 = (uint8_t*)malloc(cl + 1);
+  memcpy(c1, cb, cl);
+  memcpy(c2, cb, cl);
+  wuffs_base__slice_u8 s1 = wuffs_base__make_slice_u8(c1, cl);
+  wuffs_base__slice_u8 s2 = wuffs_base__make_slice_u8(c2, cl);
+  wuffs_base__slice_u8 sp = wuffs_base__make_slice_u8(pb, pl);
+  int ok = 1;
+  if (f == 1 && d == 4) {
+    wuffs_png__decoder__filter_1_distance_4_fallback(dec, s1);
+  } else if (f == 3 && d == 4) {
+    wuffs_png__decoder__filter_3_distance_4_fallback(dec, s1, sp);
+  } else if (f == 4 && d == 3) {
+    wuffs_png__decoder__filter_4_distance_3_fallback(dec, s1, sp);
+  } else if (f == 4 && d == 4) {
+    wuffs_png__decoder__filter_4_distance_4_fallback(dec, s1, sp);
+  } else {
+    ok = 0;
+  }
+  if (!ok) {
+    puts("bad-args");
+  } else {
+    fputs("p=", stdout);
+    if (cl) hex_out(c1, cl); else fputc('-', stdout);
+#if defined(WUFFS_PRIVATE_IMPL__CPU_ARCH__X86_64_V2)
+    if (wuffs_base__cpu_arch__have_x86_sse42()) {
+      if (f == 1) {
+        wuffs_png__decoder__filter_1_distance_4_x86_sse42(dec, s2);
+      } else if (f == 3) {
+        wuffs_png__decoder__filter_3_distance_4_x86_sse42(dec, s2, sp);
+      } else if (d == 3) {
+        wuffs_png__decoder__filter_4_distance_3_x86_sse42(dec, s2, sp);
+      } else {
+        wuffs_png__decoder__filter_4_distance_4_x86_sse42(dec, s2, sp);
+      }
+      fputs(" s=", stdout);
+      if (cl) hex_out(c2, cl); else fputc('-', stdout);
+    }
+#endif
+    fputc('\n', stdout);
+  }
+  free(c1);
+  free(c2);
+  free(dec);
+  free(cb);
+  free(pb);
+}
+
 #endif  // !defined(C09_PROBE_ONLY)
 
 // ---------------------------------------------------------------- object dumps
@@ -887,6 +955,8 @@ int main(void) {
       cmd_idct(toks, n);
     } else if (!strcmp(toks[0], "jpegblocks")) {
       cmd_jpegblocks(toks, n);
+    } else if (!strcmp(toks[0], "pngfilter")) {
+      cmd_pngfilter(toks, n);
 #endif
 #if defined(C09_STRUCTS_INC)
     } else if (!strcmp(toks[0], "layout")) {
